@@ -384,3 +384,16 @@ contract("verif.harness.shamir.reencode", props=("C15",), tiers=NO_SYMBOLIC,
          requires=["all(0 <= i < 1024 for i in idx)"],
          ensures=["implies(returns(), result == idx)"],
          gen=_gen_parse, note="symbolic strings")
+
+
+# EVERY list length: the loop of rs1024_polymod cut by the invariant "chk is the recursively defined RS1024 register after
+# _k symbols" (spec.slip39.rs1024_rec); body verified once for an arbitrary 30-bit register and an arbitrary 10-bit symbol.
+# Thorough tier only: 4110 obligations, about 25 minutes of z3 stand-alone (the ten conditional xors per symbol split the
+# body into many paths); in the quick tier the contract runs concretely in the bounded companion.
+from verif.pyvc import symlist as _symlist
+contract("buidl.shamir.rs1024_polymod#anylen", props=("C15",), bv=40, tiers=("thorough",),
+         params={"values": _symlist.symvalues("v10", ("int", 0, 1023), max_len=2**24)},
+         ensures=["returns()", "result == spec.slip39.rs1024_rec(values, len(values))", "0 <= result < 2**30"],
+         invariants={1: {"inv": ["chk == spec.slip39.rs1024_rec(values, _k)", "0 <= chk < 2**30"],
+                         "types": {"chk": ("int", 0, 2**30 - 1)}}},
+         gen=lambda rng, tier: ({"values": [rng.randrange(1024) for _ in range(n)]} for n in list(range(0, 40)) + [59, 200, 1000]))
